@@ -290,6 +290,20 @@ func runCheck(id, tier string) int {
 		}
 	}
 
+	// property-specific solver components that are not path exploration
+	extraEv := map[string]interface{}{}
+	if id == "C17" {
+		x := runC17Names(tier)
+		oc.violations = append(oc.violations, x.violations...)
+		oc.known = append(oc.known, x.known...)
+		oc.broken = append(oc.broken, x.broken...)
+		validated += x.validated
+		agg.Asserts += x.queries
+		agg.Discharged += x.unsat
+		agg.Queries += x.queries
+		extraEv = x.evidence
+	}
+
 	// evidence
 	var fl []string
 	for f := range funcs {
@@ -345,6 +359,7 @@ func runCheck(id, tier string) int {
 			"known_findings_seen":           knownSeen,
 			"jobs":                          perJob,
 			"broken":                        oc.broken,
+			"extra":                         extraEv,
 		},
 	}
 	evb, _ := json.MarshalIndent(ev, "", " ")
